@@ -247,6 +247,32 @@ def run(ctx):
         ctx.selftest_corrupt(TRACE, allf, corrupt_regen, "file created over an existing one: a never-written byte shows the previous generation")
     finally:
         vlib.sh([os.path.join(vlib.TARGET, "release", BIN), "--mode", "clean", "--scratch", _scratch()])
+    # --- run files of the external sort (src/algorithms/external_sort.rs): file-backed state that is written,
+    # synced and read back inside one sort() call.  "Reopens as written" for them means: what the merge reads back
+    # from the run files is exactly what was spilled - the output is the sorted permutation of the input.  That
+    # contract is SortMerge.tla (property C11); its replacement-selection family (harness bin c11, family rss: 1 ..
+    # many runs, run files on both sides of 8 KiB .. 1 MiB, merge_ways below the number of runs) is run here as
+    # well and judged by TLC (Trace_SortMerge).  C11-KF9 (with_comparator) is a recorded finding of that family.
+    ctx.build("c11")
+    tmpd = os.path.join(vlib.WORK, "C19-tmp", "sort")
+    os.makedirs(tmpd, exist_ok=True)
+    old_tmp = os.environ.get("TMPDIR")
+    os.environ["TMPDIR"] = tmpd
+    try:
+        sx = ctx.harness("c11", "drive", "spill", extra={"fam": "rss"}, timeout=900)
+    finally:
+        if old_tmp is None:
+            os.environ.pop("TMPDIR", None)
+        else:
+            os.environ["TMPDIR"] = old_tmp
+    xfiles = sorted(glob.glob(os.path.join(sx["_out"], "*.ndjson")))
+    if not xfiles:
+        raise vlib.ToolError("external-sort step produced no trace")
+    ctx.known = ctx.known + [k for k in vlib.load_known().get("C11", []) if k.get("id") == "C11-KF9"]
+    ev0 = ctx.cov.get("events_validated", 0)
+    ctx.validate("Trace_SortMerge", xfiles, what="external sort: run files written and read back", max_reject_per_file=60,
+                 jvm="-Xmx2g -XX:TieredStopAtLevel=1 -XX:ParallelGCThreads=1 -XX:CICompilerCount=1")
+    ctx.cov["external_sort_events"] = ctx.cov.get("events_validated", 0) - ev0
     cov = ctx.cov
     cov["evaluations"] = s.get("images", 0)
     cov["distinct_nontrivial"] = s.get("distinct_nontrivial", 0)
@@ -288,6 +314,10 @@ def run(ctx):
 
 def replay(ctx, path):
     rep = json.load(open(path))
+    if rep.get("trace_spec") == "Trace_SortMerge":
+        # a run of the external-sort step: re-executed by the C11 driver, judged by the same trace spec
+        from props import C11
+        return C11.replay(ctx, path)
     ctx.build(BIN)
     ctx.tier = rep.get("tier", ctx.tier)
     ctx.seed = rep.get("seed", ctx.seed)
